@@ -15,11 +15,13 @@ RULE = (
     "statement order and the early-exit count of draw_composite_entity (INSERT branch), draw_insert, draw_entity, _draw_entities, "
     "push_state/pop_state, and where filter_func is passed, extracted from the AST of frontend.py / properties.py; the theorems "
     "tie_push_pop_shape and tie_traversal_shape state that they equal the shape the Lean model transcribes. "
-    "correspondence: seeded generator documents built through the public ezdxf API (LINE, POINT, LWPOLYLINE, SOLID, CIRCLE, "
+    "correspondence: seeded generator documents built through the public ezdxf API (LINE, POINT, LWPOLYLINE, SOLID, CIRCLE, ARC, ELLIPSE, "
     "ATTDEF in blocks, INSERT and MINSERT (row/column counts and spacings, zero spacing, nested and at the top level) with ATTRIBs, "
     "EMPTY block definitions referenced before other entities; random layer tables with off/frozen/locked/no-plot/true-color/"
     "transparent layers and boundary ACI values, mixed-case and undefined layer references; BYLAYER/BYBLOCK/BYOBJECT/explicit ACI, "
-    "true color, transparency, linetype, lineweight, invisible flag on every nesting level; nesting depth <= 4; INSERT translations, "
+    "true color, transparency, linetype, lineweight, invisible flag on every nesting level; ARC and ELLIPSE entities (compared by the "
+    "centre of the curve entity that reaches the draw method, i.e. through Ellipse.from_arc under non-uniform scaling); nesting depth "
+    "<= 4; INSERT translations, "
     "positive/negative/non-uniform scales, extrusion (0,0,-1), block base points; rotations by multiples of 90 degrees (streams X1, "
     "X2: exact comparison on the 2^-12 grid) and by arbitrary angles with rational cosine and sine (Pythagorean triples; streams X1r, "
     "X2r: the model answers in exact rationals, coordinates are compared with |d| <= 1e-9(1+|x|), everything else exactly; documents "
@@ -41,6 +43,9 @@ RULE = (
     "X8: a paperspace layout with 1-3 top-view VIEWPORT entities (status values incl. active / off, frozen layers, per-viewport "
     "overrides, dyadic scale and offset, the whole modelspace visible) vs. drawLayoutVp. X9: layouts with a redraw order table "
     "(set_redraw_order: colliding, zero and foreign sort handles; with and without filter_func) vs. drawLayoutOrdered. "
+    "X10: Configuration(color_policy, custom_fg_color, background_policy, custom_bg_color) for every colour policy x background policy "
+    "on documents with many primitives of the same RGB and different alpha in one rendering vs. drawLayout + backendStage (colour "
+    "policy with the cache of get_backend_properties) under the foreground colour of layoutFg. "
     "X7: draw_layout after RenderContext.set_layer_properties_override(f) for f in {all layers on, all layers off, one colour / "
     "linetype / lineweight} vs. drawLayout on Ctx.overrideLayers. "
     "non-trivial = the layout has a visible INSERT (X1-X4), a non-empty frozen list (X5), more than one viewport (X6); distinct by "
@@ -51,7 +56,10 @@ RULE = (
     "angles (degrees and rational cos/sin); circles by center and by the radius of every flattened vertex under the inverse composed "
     "map; never raises for audited documents; state stack empty afterwards. O2: CustomJSONBackend output (direct and via "
     "Player.replay) vs. the recorder primitives. O3: LinePolicy.ACCURATE: every dash lies on the expected transformed geometry, same "
-    "properties. O5: paperspace layouts with 1-3 viewports: own entities, then per drawn viewport (documented status rule) the "
+    "properties. O6: 20 non-text entity types x 13 routes to the backend (layout, references: uniform, non-uniform, mirrored, extrusion "
+    "-Z, nested, sheared = explode fall-back, MINSERT, VIEWPORT) x 6 reasons to be hidden (invisible flag, layer off / frozen / not "
+    "plotted, layer-0 content of a reference on a frozen layer, frozen in the viewport): nothing reaches the backend, the visible twin "
+    "does. O5: paperspace layouts with 1-3 viewports: own entities, then per drawn viewport (documented status rule) the "
     "modelspace content as the document defines it for that viewport (frozen layers and property overrides at EVERY nesting depth), "
     "mapped by scale and offset. O4: BackendProperties.handle of EVERY primitive: own handle for layout entities and for the ATTRIBs attached "
     "directly to a top level INSERT, handle of the top level reference for everything else (block content at any depth, MINSERT "
@@ -73,7 +81,8 @@ OPEN = [
     "draw_eq_spec holds for every document whose block tree passes the decidable check Forest.lawful (no reference is sheared); proved to pass outright: quarter-turn documents and uniformly scaled documents with arbitrary rational rotations, MINSERT included. For the remaining documents (a rotated reference below a non-uniformly scaled one) the code takes the explode fall-back, which the model follows (transformOne/explode) and which does NOT draw what the document defines: finding F20 stays open (not fixed: needs a new protocol between explode.py and frontend.py)",
     "rotation angles whose cosine/sine are irrational (30 degrees ...) are oracle-only (O1, tolerance 1e-9)",
     "linetype pattern rendering, text/hatch/viewport content pipelines (draw_viewport itself), clipping (XCLIP), linetype overrides of plot style tables, the JSON backend, circle shapes and dashed linetypes: oracle-only or not modelled",
-    "3DFACE edge visibility, proxy graphics, DXFGraphicProxy wrapping and the VIEWPORT deferral of _draw_entities are in the AST-shape tie only (statement order), not in the executable model",
+    "3DFACE (visibility rule modelled: resolveVisibleFace; drawing of the edges not), SPLINE, HATCH, MESH, POLYLINE variants, XLINE/RAY: only in oracle O6 (hidden x type x route); proxy graphics, DXFGraphicProxy wrapping and the VIEWPORT deferral of _draw_entities are in the AST-shape tie only",
+    "lineweight policy / min_lineweight / lineweight_scaling are applied by the individual backends, not by the pipeline: JSON backend oracle O2 only (default configuration)",
 ]
 
 GRID = 4096
@@ -167,8 +176,11 @@ def dfltLayerName : String := "{d.layer}"
 end EzdxfVerif.Gen.RenderTables
 """
     ctx.write_gen("RenderTables", text, srcs)
-    shape_srcs = ["src/ezdxf/addons/drawing/frontend.py", "src/ezdxf/addons/drawing/properties.py"]
-    ctx.write_gen("RenderShape", render_shape(ctx.src(shape_srcs[0]), ctx.src(shape_srcs[1])), shape_srcs)
+    shape_srcs = ["src/ezdxf/addons/drawing/frontend.py", "src/ezdxf/addons/drawing/properties.py",
+                  "src/ezdxf/addons/drawing/pipeline.py", "src/ezdxf/entities/ellipse.py", "src/ezdxf/entities/insert.py",
+                  "src/ezdxf/explode.py"]
+    extra = {k: ctx.src(k) for k in shape_srcs[2:]}
+    ctx.write_gen("RenderShape", render_shape(ctx.src(shape_srcs[0]), ctx.src(shape_srcs[1]), extra), shape_srcs)
 
 
 # ---------------------------------------------------------------------- control flow shape extracted from the AST
@@ -229,7 +241,67 @@ def _calls(node, attr):
     return sum(1 for x in ast.walk(node) if isinstance(x, ast.Call) and isinstance(x.func, ast.Attribute) and x.func.attr == attr)
 
 
-def render_shape(frontend_src, properties_src):
+def render_shape2(properties_src, extra):
+    """follow-up of session 3: the pipeline colour cache, apply_color_policy, Ellipse.from_arc, the MINSERT spacing update of
+    Insert.transform, the polyline branch of the explode fall-back, the head of resolve_visible"""
+    import ast
+    from leanfmt import lean_str
+
+    def L(items):
+        return "[" + ", ".join(lean_str(x) for x in items) + "]"
+
+    pl = ast.parse(extra["src/ezdxf/addons/drawing/pipeline.py"])
+    gbp = _find_func(pl, "get_backend_properties", "RenderPipeline2d")
+    keys = [ast.unparse(n.slice) for n in ast.walk(gbp) if isinstance(n, ast.Subscript) and "_color_mapping" in ast.unparse(n.value)]
+    key_assigns = [ast.unparse(n) for n in gbp.body if isinstance(n, ast.Assign)]
+    acp = _find_func(pl, "apply_color_policy")
+    chain, node = [], next(n for n in acp.body if isinstance(n, ast.If))
+    while True:
+        chain.append(ast.unparse(node.test) + " => " + "; ".join(ast.unparse(x) for x in node.body))
+        if len(node.orelse) == 1 and isinstance(node.orelse[0], ast.If):
+            node = node.orelse[0]
+        else:
+            chain.append("else => " + "; ".join(ast.unparse(x) for x in node.orelse))
+            break
+    acp_frame = [ast.unparse(n) for n in acp.body if not isinstance(n, ast.If)]
+    el = ast.parse(extra["src/ezdxf/entities/ellipse.py"])
+    fa = _find_func(el, "from_arc", "Ellipse")
+    attribs_src = [ast.unparse(n.value) for n in ast.walk(fa) if isinstance(n, ast.Assign) and ast.unparse(n.targets[0]) == "attribs"]
+    ins = ast.parse(extra["src/ezdxf/entities/insert.py"])
+    tr = _find_func(ins, "transform", "Insert")
+    spacing = [ast.unparse(n) for n in ast.walk(tr) if isinstance(n, ast.AugAssign)]
+    ex = ast.parse(extra["src/ezdxf/explode.py"])
+    vb = _find_func(ex, "virtual_block_reference_entities")
+    poly = [n for n in ast.walk(vb) if isinstance(n, ast.If) and "LWPOLYLINE" in ast.unparse(n.test) and "POLYLINE" in ast.unparse(n.test)]
+    poly_body = [ast.unparse(x).split("\n")[0] for x in (poly[0].body if poly else [])]
+    pt = ast.parse(properties_src)
+    rv = _find_func(pt, "resolve_visible", "RenderContext")
+    head, node = [], next(n for n in rv.body if isinstance(n, ast.If))
+    while True:
+        head.append(ast.unparse(node.test) + " => " + "; ".join(ast.unparse(x) for x in node.body))
+        if len(node.orelse) == 1 and isinstance(node.orelse[0], ast.If):
+            node = node.orelse[0]
+        else:
+            break
+    return f"""
+/-- `RenderPipeline2d.get_backend_properties`: every subscript of `self._color_mapping` (lookup, store), local assignments -/
+def colorCacheKeys : List String := {L(keys)}
+def colorCacheAssigns : List String := {L(key_assigns)}
+/-- `apply_color_policy`: statements around the if-chain, the chain as `test => body` -/
+def colorPolicyFrame : List String := {L(acp_frame)}
+def colorPolicyChain : List String := {L(chain)}
+/-- `Ellipse.from_arc`: what the DXF attributes of the new ELLIPSE are taken from -/
+def fromArcAttribs : List String := {L(attribs_src)}
+/-- `Insert.transform`: the augmented assignments (MINSERT spacing update) -/
+def spacingUpdates : List String := {L(spacing)}
+/-- explode fall-back, LWPOLYLINE / POLYLINE with arcs under non-uniform scaling: first line of every statement -/
+def polylineFallback : List String := {L(poly_body)}
+/-- `RenderContext.resolve_visible`: the leading if-chain as `test => body` -/
+def resolveVisibleHead : List String := {L(head)}
+"""
+
+
+def render_shape(frontend_src, properties_src, extra=None):
     """statement order and exit paths of the functions the model transcribes, as Lean data (theorem tie_push_pop_shape)"""
     import ast
     from leanfmt import lean_str
@@ -312,6 +384,7 @@ def callbackFinally : List String := {sigs(cb_try.finalbody) if cb_try else "[]"
 def layoutDrawCalls : Nat := {_calls(dl, "draw_entities")}
 def layoutFilterArgs : Nat := {sum(1 for x in ast.walk(dl) if isinstance(x, ast.Call) and isinstance(x.func, ast.Attribute) and x.func.attr == "draw_entities" and any(k.arg == "filter_func" for k in x.keywords))}
 def otherFilterArgs : Nat := {sum(1 for x in ast.walk(ft) if isinstance(x, ast.Call) and isinstance(x.func, ast.Attribute) and x.func.attr == "draw_entities" and any(k.arg == "filter_func" for k in x.keywords)) - sum(1 for x in ast.walk(dl) if isinstance(x, ast.Call) and isinstance(x.func, ast.Attribute) and x.func.attr == "draw_entities" and any(k.arg == "filter_func" for k in x.keywords))}
+{render_shape2(properties_src, extra) if extra else ""}
 
 end EzdxfVerif.Gen.RenderShape
 """
@@ -385,7 +458,7 @@ def _pt(rng, span=6):
 
 
 def gen_leaf(rng, layers, inside, allow_attdef):
-    kinds = ["LINE", "LINE", "POINT", "LWPOLYLINE", "SOLID", "CIRCLE"] + (["ATTDEF"] if allow_attdef else [])
+    kinds = ["LINE", "LINE", "POINT", "LWPOLYLINE", "SOLID", "CIRCLE", "ARC", "ELLIPSE"] + (["ATTDEF"] if allow_attdef else [])
     t = rng.choice(kinds)
     e = {"t": t, **gen_props(rng, layers, inside)}
     if t == "LINE":
@@ -408,9 +481,14 @@ def gen_leaf(rng, layers, inside, allow_attdef):
         if rng.random() < 0.3:
             pts[3] = pts[2]
         e["pts"] = pts
-    elif t == "CIRCLE":
+    elif t in ("CIRCLE", "ARC", "ELLIPSE"):
         e["pts"] = [_pt(rng)]
         e["r"] = Q * rng.randint(1, 12)
+        if t == "ARC":
+            e["angles"] = (rng.choice([0.0, 30.0, 200.0, 350.0]), rng.choice([90.0, 180.0, 10.0, 359.0]))
+        if t == "ELLIPSE":
+            e["ratio"] = rng.choice([0.25, 0.5, 1.0])
+            e["major"] = rng.choice([(1, 0), (0, 1), (-1, 0), (3, 4)])
     return e
 
 
@@ -616,6 +694,11 @@ def _add_entity(layout, e):
         ent = layout.add_solid([_f(p) for p in e["pts"]], dxfattribs=_attribs(e))
     elif t == "CIRCLE":
         ent = layout.add_circle(_f(e["pts"][0]), float(e["r"]), dxfattribs=_attribs(e))
+    elif t == "ARC":
+        ent = layout.add_arc(_f(e["pts"][0]), float(e["r"]), e["angles"][0], e["angles"][1], dxfattribs=_attribs(e))
+    elif t == "ELLIPSE":
+        k = float(e["r"]) / math.hypot(*e["major"])
+        ent = layout.add_ellipse(_f(e["pts"][0]), (e["major"][0] * k, e["major"][1] * k), e["ratio"], dxfattribs=_attribs(e))
     elif t == "ATTDEF":
         ent = layout.add_attdef("TAG", _f(e["pts"][0]), "dflt", dxfattribs=_attribs(e))
     elif t == "INSERT":
@@ -691,6 +774,12 @@ def _probe_class():
         def enter_entity(self, entity, properties):
             t = entity.dxftype()
             self.cur = (t, properties.linetype_name)
+            self.center = None
+            if t in ("CIRCLE", "ARC"):
+                c = entity.ocs().to_wcs(entity.dxf.center)
+                self.center = (c.x, c.y)
+            elif t == "ELLIPSE":
+                self.center = (entity.dxf.center.x, entity.dxf.center.y)
             self.stack.append((entity, properties))
 
         def exit_entity(self, entity):
@@ -713,12 +802,16 @@ def _probe_class():
                 rec = PointsRecord(NumpyPoints2d((p2,)))
                 h = self.pipe._current_entity_handle if self.pipe is not None else ""
                 self.cur = (t, properties.linetype_name)
-                self.store(rec, BackendProperties(properties.color, properties.lineweight, properties.layer, properties.pen, h))
+                if self.pipe is not None:
+                    # the stage every real primitive passes: colour policy + cache, current entity handle
+                    self.store(rec, self.pipe.get_backend_properties(properties))
+                else:
+                    self.store(rec, BackendProperties(properties.color, properties.lineweight, properties.layer, properties.pen, h))
                 self.tags[-1] = (t, properties.linetype_name, "text")
 
         def store(self, record, properties):
             super().store(record, properties)
-            self.tags.append(self.cur + ("geom",))
+            self.tags.append(self.cur[:2] + ("geom", getattr(self, "center", None)))
 
     return Probe
 
@@ -746,7 +839,8 @@ def layer_override_func(name):
     return {"allon": allon, "alloff": alloff, "mono": mono}[name]
 
 
-def observe(doc, layout_name="msp", export=False, line_policy="SOLID", ctb=None, filter_func=None, layer_override=None):
+def observe(doc, layout_name="msp", export=False, line_policy="SOLID", ctb=None, filter_func=None, layer_override=None,
+            config_changes=None):
     """run the real front end; returns ('ok', [prim...], ctx) or ('err', ExceptionName).
     prim = dict(kind, color, pen, layer, ltype, lw, pts(float pairs), handle, dxftype, path)"""
     from ezdxf.addons.drawing import Frontend, RenderContext
@@ -756,6 +850,8 @@ def observe(doc, layout_name="msp", export=False, line_policy="SOLID", ctb=None,
     layout = doc.modelspace() if layout_name == "msp" else doc.layout("Layout1")
     rec = _probe_class()()
     cfg = Configuration(line_policy=getattr(LinePolicy, line_policy), text_policy=TextPolicy.IGNORE)
+    if config_changes:
+        cfg = cfg.with_changes(**config_changes)
     rctx = RenderContext(doc, export_mode=export) if ctb is None else RenderContext(doc, export_mode=export, ctb=ctb)
     if layer_override is not None:
         rctx.set_layer_properties_override(layer_override_func(layer_override))
@@ -781,9 +877,12 @@ def observe(doc, layout_name="msp", export=False, line_policy="SOLID", ctb=None,
         elif isinstance(record, PathRecord):
             if record.path.has_curves:
                 d["kind"] = "curve"
-                bb = record.path.bbox()
-                c = bb.center
-                d["pts"] = [(c.x, c.y)]
+                # centre of the CIRCLE / ARC / ELLIPSE entity that is being drawn (after all transformations); other curves: bbox
+                if len(tag) > 3 and tag[3] is not None:
+                    d["pts"] = [tag[3]]
+                else:
+                    c = record.path.bbox().center
+                    d["pts"] = [(c.x, c.y)]
                 d["path"] = record.path
             else:
                 d["kind"] = "path"
@@ -885,7 +984,7 @@ def _enc_ent(e):
             f.append(f"{rows}_{cols}_{_rat(rsp)}_{_rat(csp)}")
         return ",".join(f)
     kind = {"LINE": "line", "POINT": "point", "LWPOLYLINE": "pclosed" if e.get("closed") else "popen", "SOLID": "solid",
-            "CIRCLE": "circle", "ATTDEF": "attdef"}[t]
+            "CIRCLE": "circle", "ARC": "circle", "ELLIPSE": "circle", "ATTDEF": "attdef"}[t]  # model: curve entity = its centre
     pts = " ".join(_rat(x) + " " + _rat(y) for x, y in e["pts"])
     return ",".join(["k", kind, _enc_props(e, ","), pts])
 
@@ -1191,6 +1290,8 @@ def spec_flatten(desc, layout_name, layers, fg, export, aci_rgb, exact, ctb_lw=N
                 emit("fill", rp, pts, path, src=e)
             elif t == "CIRCLE":
                 emit("curve", rp, pts, path, {"m": acc, "c": e["pts"][0], "r": e["r"]}, src=e)
+            elif t in ("ARC", "ELLIPSE"):
+                emit("curve", rp, pts, path, {"shape": False}, src=e)
 
     top = desc["layouts"][layout_name]
     if keep is not None:
@@ -1235,6 +1336,18 @@ def walk_paths(desc, layout_name, ents=None):
 
     go(desc["layouts"][layout_name] if ents is None else ents, [])
     return out
+
+
+def fallback_changes_sequence(desc, layout_name):
+    """a sheared nested INSERT (explode fall-back, F20) that is invisible or has ATTRIBs: its content is drawn although it must not
+    be / its ATTRIBs are not drawn: the number and order of the primitives of the layout change"""
+    try:
+        for p in walk_paths(desc, layout_name):
+            if shear_fallback(p) and any(e["invisible"] or e["attribs"] for e in p[1:]):
+                return True
+    except (RecursionError, KeyError):
+        pass
+    return False
 
 
 def layout_fallback(desc, layout_name):
@@ -1383,6 +1496,7 @@ def correspond(ctx):
     correspond_viewports(ctx)
     correspond_viewport_content(ctx)
     correspond_redraw_order(ctx)
+    correspond_policies(ctx)
 
 
 def canon_float(obs):
@@ -1470,9 +1584,9 @@ def correspond_viewport_content(ctx):
         rng = random.Random(key)
         desc = gen_doc(rng, "quarter", depth=rng.choice([1, 2, 2, 3]))
         for b in desc["blocks"]:
-            b["ents"] = [e for e in b["ents"] if e["t"] != "CIRCLE"]
+            b["ents"] = [e for e in b["ents"] if e["t"] not in ("CIRCLE", "ARC", "ELLIPSE")]
         for lay in ("msp", "psp"):
-            desc["layouts"][lay] = [e for e in desc["layouts"][lay] if e["t"] != "CIRCLE"]
+            desc["layouts"][lay] = [e for e in desc["layouts"][lay] if e["t"] not in ("CIRCLE", "ARC", "ELLIPSE")]
         doc = build(desc)
         psp = doc.layout("Layout1")
         names = [l.dxf.name for l in doc.layers]
@@ -1559,6 +1673,63 @@ def correspond_redraw_order(ctx):
     ctx.correspond("X9 redraw order table", "C18", cases)
 
 
+def correspond_policies(ctx):
+    """X10: the stage between front end and backend: Configuration(color_policy, custom_fg_color, background_policy,
+    custom_bg_color) for every colour policy x background policy; documents with many primitives of the SAME RGB colour and
+    DIFFERENT alpha in one rendering (explicit transparency, BYLAYER from transparent layers, BYBLOCK through references), so that
+    the colour cache of the pipeline is hit with every combination. Frontend.draw_layout vs. the model's drawLayout + backendStage
+    with the foreground colour of layoutFg"""
+    import random
+    from ezdxf.addons.drawing.config import ColorPolicy, BackgroundPolicy
+    from ezdxf.addons.drawing import pipeline as PL
+    from ezdxf.addons.drawing.properties import is_dark_color
+
+    pols = [p.name for p in ColorPolicy]
+    bgs = [b.name for b in BackgroundPolicy]
+    mono = {"MONOCHROME": (1.0, 0.0), "MONOCHROME_DARK_BG": (0.7, 0.3), "MONOCHROME_LIGHT_BG": (0.7, 0.0)}
+    cases = []
+    for i in range(ctx.n(45, 600)):
+        key = f"{ctx.seed}/{ctx.pid}/policy/{i}"
+        rng = random.Random(key)
+        desc = gen_doc(rng, "quarter", depth=rng.choice([1, 2, 3]))
+        # more entities of few colours with all kinds of transparency
+        names = [s[0] for s in desc["layers"]]
+        for lay in ("msp", "psp"):
+            for _ in range(rng.randint(2, 5)):
+                e = gen_leaf(rng, names, False, False)
+                e["color"] = rng.choice([1, 1, 7, 256, 0, 30])
+                e["true_color"] = None
+                e["transparency"] = rng.choice(TRANSP)
+                desc["layouts"][lay].insert(rng.randrange(len(desc["layouts"][lay]) + 1), e)
+        doc = build(desc)
+        for lay in ("msp", "psp"):
+            pol = pols[(i + (lay == "psp")) % len(pols)] if rng.random() < 0.8 else rng.choice(pols)
+            bg = rng.choice(bgs)
+            cfg = rng.choice(["#ff0000", "#00ff0080", "#123456fe", "#ffffff"])
+            cbg = rng.choice(["#000000", "#ffffff", "#202020", "#808080", "#0000ff"])
+            changes = {"color_policy": getattr(ColorPolicy, pol), "custom_fg_color": cfg,
+                       "background_policy": getattr(BackgroundPolicy, bg), "custom_bg_color": cbg}
+            export = rng.random() < 0.3
+            obs = observe(doc, lay, export, config_changes=changes)
+            grays = ""
+            if pol in mono:
+                # the monochrome policies go through a floating point luminance: gray values of the live function for the
+                # colours the front end resolves (same background policy, colour policy COLOR)
+                plain = observe(doc, lay, export, config_changes=dict(changes, color_policy=ColorPolicy.COLOR))
+                rgbs = sorted({p["color"][:7] for p in plain[1]}) if plain[0] == "ok" else []
+                sc, of = mono[pol]
+                grays = ";".join(f"{int(c[1:], 16)}:{int(PL.color_to_monochrome(c, scale=sc, offset=of)[1:7], 16)}" for c in rgbs)
+            body = encode(desc, doc, lay, export)
+            cu = f"{int(cfg[1:7], 16)}:{int(cfg[7:9], 16) if len(cfg) == 9 else '-'}"
+            req = "|".join(["drawp", body, pol, cu, bg, "1" if is_dark_color(cbg[:7]) else "0", grays])
+            ctx.hist("X10 colour and background policy", pol + " / " + bg)
+            same_rgb = len({p["color"][:7] for p in obs[1]}) < len({p["color"] for p in obs[1]}) if obs[0] == "ok" else False
+            if same_rgb:
+                ctx.hist("X10 colour and background policy", "same RGB with different alpha in one rendering")
+            cases.append((req, canon(obs), same_rgb))
+    ctx.correspond("X10 colour and background policy", "C18", cases)
+
+
 def correspond_viewports(ctx):
     """X6: which VIEWPORT entities _draw_viewports draws (by status) vs. the model's viewportsDrawn"""
     from ezdxf.addons.drawing import frontend as F
@@ -1602,7 +1773,12 @@ def check_doc(ctx, docid, key, desc, lay, export, exact, stream="O1 spec", opt=N
     ctx.hist(stream, "audited" if audited else "not audit-clean: skipped")
     if not audited:
         return None  # the property quantifies over documents that pass audit (audit() also repairs the document)
-    obs = observe(doc, lay, export, ctb=ctb, filter_func=ff)
+    changes = None
+    if opt.get("policy"):
+        from ezdxf.addons.drawing.config import ColorPolicy
+        changes = {"color_policy": getattr(ColorPolicy, opt["policy"]), "custom_fg_color": "#10203040"}
+        ctx.hist(stream, "colour policy " + opt["policy"])
+    obs = observe(doc, lay, export, ctb=ctb, filter_func=ff, config_changes=changes)
     ctx.count(stream, (docid, lay, export, repr(opt)), any(e["t"] == "INSERT" for e in desc["layouts"][lay]))
     if ctb is not None:
         ctx.hist(stream, "with plot style table overrides")
@@ -1627,6 +1803,23 @@ def check_doc(ctx, docid, key, desc, lay, export, exact, stream="O1 spec", opt=N
                 aci_rgb[aci] = (st.color[0] << 16) | (st.color[1] << 8) | st.color[2]
     spec = spec_flatten(desc, lay, read_layers(doc), FG[lay], export, aci_rgb, exact, ctb_lw,
                         (lambda e: e["_h"] in kset) if kset is not None else None)
+    if opt.get("policy"):
+        # the documented meaning of the colour policies, applied to what the document defines, primitive by primitive
+        def pol(c, name=opt["policy"]):
+            rgb, alpha = c[:7], c[7:]
+            if name == "COLOR_SWAP_BW":
+                rgb = {"#000000": "#ffffff", "#ffffff": "#000000"}.get(rgb, rgb)
+            elif name == "COLOR_NEGATIVE":
+                rgb = "#%06x" % (0xFFFFFF ^ int(rgb[1:], 16))
+            elif name == "BLACK":
+                rgb = "#000000"
+            elif name == "WHITE":
+                rgb = "#ffffff"
+            elif name == "CUSTOM":
+                rgb, alpha = "#102030", "40"
+            return rgb + alpha
+        for sp in spec:
+            sp["color"] = pol(sp["color"])
     fb = "" if exact else ("explode-fallback/" if layout_fallback(desc, lay) else "")
     if fb:
         ctx.hist(stream, "layout with a sheared nested INSERT (F20)")
@@ -1634,8 +1827,9 @@ def check_doc(ctx, docid, key, desc, lay, export, exact, stream="O1 spec", opt=N
         ctx.fail(f"{fb}count/{docid}/{lay}/{int(export)}",
                  f"{docid} {lay} export={export}: drawn primitives {[g['kind'] for g in got]} expected {[s['kind'] for s in spec]}", rep)
         return None
+    seq_changed = (not exact) and fallback_changes_sequence(desc, lay)
     for i, (g, s) in enumerate(zip(got, spec)):
-        fb = "" if exact else ("explode-fallback/" if shear_fallback(s["path"]) else "")
+        fb = "" if exact else ("explode-fallback/" if (shear_fallback(s["path"]) or seq_changed) else "")
         for k in ("color", "pen", "layer", "ltype"):
             if g[k] != s[k]:
                 ctx.fail(f"{fb}props/{k}/{docid}/{lay}/{int(export)}/{i}",
@@ -1645,10 +1839,15 @@ def check_doc(ctx, docid, key, desc, lay, export, exact, stream="O1 spec", opt=N
                      f"{docid} {lay} primitive {i}: lineweight {g['lw']} expected {float(s['lw'])}", rep)
         bad = len(g["pts"]) != len(s["pts"]) or any(
             not (_close(a[0], float(b[0])) and _close(a[1], float(b[1]))) for a, b in zip(g["pts"], s["pts"]))
-        if not bad and g["kind"] == "curve":
+        if not bad and g["kind"] == "curve" and s.get("shape", True):
             bad = not circle_ok(g["path"], s)
         if bad:
-            ctx.fail(f"geom/{docid}/{lay}/{int(export)}/{i}",
+            # finding F20 replaces a sheared nested INSERT by its content: when such a reference is invisible or carries ATTRIBs the
+            # SEQUENCE of primitives changes (its content appears / its ATTRIBs vanish), so that equal kind lists can hide a
+            # misalignment and primitive i of the drawing is not primitive i of the document; only then the geometry comparison
+            # belongs to the known finding - in every other layout (also other fall-back layouts) it stays strict
+            seq = "explode-fallback/" if seq_changed else ""
+            ctx.fail(f"{seq}geom/{docid}/{lay}/{int(export)}/{i}",
                      f"{docid} {lay} primitive {i} ({g['dxftype']} on layer {g['layer']}, nesting depth {len(s['path'])}): drawn at "
                      f"{[(round(x, 6), round(y, 6)) for x, y in g['pts'][:4]]}, world geometry is "
                      f"{[(round(float(x), 6), round(float(y), 6)) for x, y in s['pts'][:4]]}", rep)
@@ -1685,6 +1884,8 @@ def oracle(ctx):
                 opt["ctb"] = f"{key}/ctb/{lay}"
             if key is not None and r.random() < 0.2 and desc["layouts"][lay]:
                 opt["keep"] = [i for i in range(len(desc["layouts"][lay])) if r.random() < 0.6]
+            if key is not None and r.random() < 0.2:
+                opt["policy"] = r.choice(["COLOR_SWAP_BW", "COLOR_NEGATIVE", "BLACK", "WHITE", "CUSTOM"])
             res = check_doc(ctx, docid, key, desc, lay, export, exact, opt=opt)
             if res is None:
                 continue
@@ -1698,6 +1899,7 @@ def oracle(ctx):
             if k % dash_every == 0:
                 dash_check(ctx, docid, key, desc, doc, lay, export, spec)
     viewport_oracle(ctx)
+    matrix_oracle(ctx)
 
 
 def viewport_oracle(ctx):
@@ -1721,9 +1923,9 @@ def viewport_case(ctx, key, rep):
     rng = random.Random(key)
     desc = gen_doc(rng, rng.choice(["quarter", "safe"]), depth=rng.choice([1, 2, 2, 3]))
     for b in desc["blocks"]:
-        b["ents"] = [e for e in b["ents"] if e["t"] != "CIRCLE"]
+        b["ents"] = [e for e in b["ents"] if e["t"] not in ("CIRCLE", "ARC", "ELLIPSE")]
     for lay in ("msp", "psp"):
-        desc["layouts"][lay] = [e for e in desc["layouts"][lay] if e["t"] != "CIRCLE"]
+        desc["layouts"][lay] = [e for e in desc["layouts"][lay] if e["t"] not in ("CIRCLE", "ARC", "ELLIPSE")]
     doc = build(desc)
     if doc.audit().has_errors:
         return
@@ -1810,6 +2012,153 @@ def viewport_case(ctx, key, rep):
             ctx.fail(f"viewport/geom/{rep['docid']}/{i}", f"{rep['docid']} primitive {i}: drawn at {g['pts'][:3]}, expected {[(float(x), float(y)) for x, y in s['pts'][:3]]}", rep)
 
 
+# ====================================================================== O6: hidden x entity type x route
+def _matrix_catalogue():
+    """non-text graphical entity types: name -> function(layout, dxfattribs) adding one entity"""
+    def hatch(l, a):
+        h = l.add_hatch(color=a.get("color", 256), dxfattribs=a)
+        h.paths.add_polyline_path([(0, 0), (2, 0), (2, 1), (0, 1)], is_closed=True)
+
+    def mesh(l, a):
+        m = l.add_mesh(dxfattribs=a)
+        with m.edit_data() as d:
+            d.vertices = [(0, 0, 0), (1, 0, 0), (1, 1, 0), (0, 1, 0)]
+            d.faces = [(0, 1, 2, 3)]
+
+    def polyface(l, a):
+        pf = l.add_polyface(dxfattribs=a)
+        pf.append_face([(0, 0, 0), (1, 0, 0), (1, 1, 0)])
+
+    return {
+        "LINE": lambda l, a: l.add_line((0, 0), (2, 1), dxfattribs=a),
+        "POINT": lambda l, a: l.add_point((1, 1), dxfattribs=a),
+        "CIRCLE": lambda l, a: l.add_circle((1, 0), 1, dxfattribs=a),
+        "ARC": lambda l, a: l.add_arc((1, 0), 1, 10, 200, dxfattribs=a),
+        "ELLIPSE": lambda l, a: l.add_ellipse((0, 0), (2, 0), 0.5, dxfattribs=a),
+        "SPLINE": lambda l, a: l.add_spline([(0, 0), (1, 1), (2, 0), (3, 1)], dxfattribs=a),
+        "LWPOLYLINE": lambda l, a: l.add_lwpolyline([(0, 0), (2, 0), (2, 1)], dxfattribs=a),
+        "LWPOLYLINE-bulge": lambda l, a: l.add_lwpolyline([(0, 0, 0, 0, 1), (2, 0, 0, 0, -0.5), (2, 1)], dxfattribs=a),
+        "LWPOLYLINE-width": lambda l, a: l.add_lwpolyline([(0, 0, 0.2, 0.2, 0), (2, 0, 0.2, 0.2, 0), (2, 1)], dxfattribs=a),
+        "POLYLINE2D-bulge": lambda l, a: l.add_polyline2d([(0, 0, 0, 0, 1), (2, 0, 0, 0, 0), (2, 1)], format="xyseb", dxfattribs=a),
+        "POLYLINE3D": lambda l, a: l.add_polyline3d([(0, 0, 0), (2, 0, 0), (2, 1, 0)], dxfattribs=a),
+        "POLYFACE": polyface,
+        "MESH": mesh,
+        "SOLID": lambda l, a: l.add_solid([(0, 0), (2, 0), (0, 1), (2, 1)], dxfattribs=a),
+        "TRACE": lambda l, a: l.add_trace([(0, 0), (2, 0), (0, 1), (2, 1)], dxfattribs=a),
+        "3DFACE": lambda l, a: l.add_3dface([(0, 0), (2, 0), (2, 1), (0, 1)], dxfattribs=a),
+        "3DFACE-edges": lambda l, a: l.add_3dface([(0, 0), (2, 0), (2, 1), (0, 1)], dxfattribs=dict(a, invisible_edges=5)),
+        "HATCH": hatch,
+        "XLINE": lambda l, a: l.add_xline((0, 0), (1, 1), dxfattribs=a),
+        "RAY": lambda l, a: l.add_ray((0, 0), (1, 0), dxfattribs=a),
+    }
+
+
+MATRIX_ROUTES = {
+    # name -> (chain of INSERT attribute dicts from the layout inwards); [] = the entity itself in the layout
+    "layout": [],
+    "insert": [{}],
+    "uniform": [{"xscale": 2, "yscale": 2, "rotation": 30}],
+    "non-uniform": [{"xscale": 2, "yscale": 0.5}],
+    "mirror": [{"xscale": -1}],
+    "mirror-non-uniform": [{"xscale": 1, "yscale": -3, "rotation": 90}],
+    "extrusion-z": [{"extrusion": (0, 0, -1), "xscale": 2, "yscale": 1}],
+    "nested": [{"xscale": 2, "yscale": 2}, {"rotation": 45, "xscale": 0.5, "yscale": 0.5}],
+    "nested-non-uniform": [{"xscale": 1, "yscale": 2}, {"rotation": 90}],
+    "nested-sheared": [{"xscale": 2, "yscale": 1}, {"rotation": 30}],          # explode fall-back of the nested reference
+    "nested-sheared-3": [{"xscale": 2, "yscale": 1}, {"rotation": 30}, {"xscale": -1}],
+    "minsert": [{"row_count": 2, "column_count": 2, "row_spacing": 5, "column_spacing": 5, "xscale": 1, "yscale": 2}],
+    "minsert-nested-mirror": [{"yscale": -1}, {"row_count": 2, "column_count": 1, "row_spacing": 5, "column_spacing": 5}],
+}
+MATRIX_HIDE = ("visible", "invisible", "layer-off", "layer-frozen", "no-plot", "layer0-of-hidden-insert", "vp-frozen")
+
+
+def matrix_case(ctx, tname, hide, only_route=None):
+    """one entity type x one reason to be hidden, all routes: returns list of (route, number of primitives)"""
+    import ezdxf
+    from ezdxf.addons.drawing import Frontend, RenderContext
+    from ezdxf.addons.drawing.recorder import Recorder
+
+    add = _matrix_catalogue()[tname]
+    doc = ezdxf.new("R2010", setup=True)
+    doc.layers.add("OFF").off()
+    doc.layers.add("FROZEN").freeze()
+    doc.layers.add("NOPLOT", plot=False)
+    doc.layers.add("VPF")
+    attribs = {"layer": "ENT", "color": 3}
+    ins_layer = "INS"
+    if hide == "invisible":
+        attribs["invisible"] = 1
+    elif hide == "layer-off":
+        attribs["layer"] = "OFF"
+    elif hide == "layer-frozen":
+        attribs["layer"] = "FROZEN"
+    elif hide == "no-plot":
+        attribs["layer"] = "NOPLOT"
+    elif hide == "layer0-of-hidden-insert":
+        attribs["layer"] = "0"
+        ins_layer = "FROZEN"
+    elif hide == "vp-frozen":
+        attribs["layer"] = "VPF"
+    export = hide == "no-plot"
+    msp = doc.modelspace()
+    tops = {}
+    for rname, chain in MATRIX_ROUTES.items():
+        if only_route is not None and rname != only_route:
+            continue
+        if hide == "layer0-of-hidden-insert" and not chain:
+            continue
+        if not chain:
+            before = len(msp)
+            add(msp, attribs)
+            tops[rname] = list(msp)[before:]
+            continue
+        inner = doc.blocks.new(f"B_{rname}_0")
+        add(inner, attribs)
+        name = inner.name
+        for k, a in enumerate(reversed(chain[1:]), start=1):
+            blk = doc.blocks.new(f"B_{rname}_{k}")
+            # nested references are on layer 0 / BYBLOCK: the state comes from the top level reference
+            blk.add_blockref(name, (1, 2), dxfattribs=dict(a, layer="0"))
+            name = blk.name
+        tops[rname] = [msp.add_blockref(name, (3, -1), dxfattribs=dict(chain[0], layer=ins_layer))]
+    out = []
+    if hide == "vp-frozen":
+        psp = doc.layout("Layout1")
+        vp = psp.add_viewport(center=(0, 0), size=(4096, 4096), view_center_point=(0, 0), view_height=4096, status=2)
+        vp.frozen_layers = ["vpf"]
+        rec = Recorder()
+        Frontend(RenderContext(doc), rec).draw_layout(psp)
+        return [("viewport:all-routes", len(list(rec.player().recordings())))]
+    for rname, ents in tops.items():
+        rec = Recorder()
+        fe = Frontend(RenderContext(doc, export_mode=export), rec)
+        fe.draw_entities(ents)
+        out.append((rname, len(list(rec.player().recordings()))))
+    return out
+
+
+def matrix_oracle(ctx):
+    """O6: every non-text entity type x every route to the backend (layout, block references: uniform, non-uniform, mirrored,
+    extrusion -Z, nested, nested and sheared = explode fall-back, MINSERT, VIEWPORT) x every reason to be hidden (invisible flag,
+    layer off, layer frozen, not plotted in export mode, layer-0 content of a reference on a frozen layer, frozen in the viewport):
+    nothing may reach the backend; the same entity without a reason to be hidden must reach it (non-vacuity)"""
+    for tname in _matrix_catalogue():
+        drawn = dict(matrix_case(ctx, tname, "visible"))
+        for rname, n in drawn.items():
+            ctx.count("O6 hidden x type x route", (tname, rname, "visible"), True)
+            if n == 0:
+                ctx.hist("O6 hidden x type x route", f"not rendered at all: {tname} via {rname}")
+        for hide in MATRIX_HIDE[1:]:
+            for rname, n in matrix_case(ctx, tname, hide):
+                ctx.count("O6 hidden x type x route", (tname, rname, hide), True)
+                ctx.hist("O6 hidden x type x route", hide)
+                if n:
+                    ctx.fail(f"hidden/{hide}/{tname}/{rname}",
+                             f"{tname} that is hidden ({hide}) reached the backend via route '{rname}' ({n} primitive(s))",
+                             {"op": "matrix", "type": tname, "hide": hide, "route": rname, "docid": "matrix", "rngkey": None,
+                              "layout": "msp", "export": hide == "no-plot"})
+
+
 def handle_check(ctx, docid, key, desc, doc, lay, export, got, spec):
     """BackendProperties.handle is documented as the handle of the top level entity: an entity of the layout is reported
     under its own handle; everything a block reference draws (block content at any depth, grid elements of a MINSERT, nested
@@ -1831,7 +2180,9 @@ def handle_check(ctx, docid, key, desc, doc, lay, export, got, spec):
         if have != want:
             att = [a.get("_h") for a in top.get("attribs", [])] if isinstance(top, dict) else []
             cls = "attrib-shadows-insert" if (have in att and s.get("own") is None) else "other"
-            ctx.fail(f"handle/{cls}/{docid}/{lay}",
+            # misaligned primitive lists in a fall-back layout whose sheared reference is invisible / has ATTRIBs: finding F20
+            seq = "explode-fallback/" if (desc.get("mode") not in ("quarter", "safe") and fallback_changes_sequence(desc, lay)) else ""
+            ctx.fail(f"{seq}handle/{cls}/{docid}/{lay}",
                      f"{docid} {lay}: primitive {i} ({g['kind']}, {what} #{top['_h']:X}) is sent with handle #{have:X}, expected #{want:X}"
                      + (" (its last ATTRIB)" if cls != "other" else ""),
                      {"docid": docid, "rngkey": key, "layout": lay, "export": export, "op": "handle"})
@@ -1935,6 +2286,13 @@ def replay(ctx, rep):
     for f in rep.get("failing_inputs", []):
         r = f["replay"]
         sub = type(ctx)(ctx.pid, ctx.tier, ctx.seed)
+        if r.get("op") == "matrix":
+            res = matrix_case(sub, r["type"], r["hide"], None if r["hide"] == "vp-frozen" else r["route"])
+            import shutil
+            shutil.rmtree(sub.scratch, ignore_errors=True)
+            if any(n for _, n in res):
+                bad.append(f["key"])
+            continue
         if r.get("op") == "viewport":
             try:
                 viewport_case(sub, r["rngkey"], r)
